@@ -573,6 +573,29 @@ public:
   */
   void add_disjunct(const PSET& ph);
 
+  //! Assigns to \p *this an upper bound of \p *this and \p y.
+  /*!
+    \exception std::invalid_argument
+    Thrown if \p *this and \p y are dimension-incompatible.
+  */
+  void upper_bound_assign(const Pointset_Powerset& y);
+
+  //! Assigns to \p *this the least upper bound of \p *this and \p y.
+  /*!
+    \exception std::invalid_argument
+    Thrown if \p *this and \p y are dimension-incompatible.
+  */
+  void least_upper_bound_assign(const Pointset_Powerset& y);
+
+  /*! \brief
+    Assigns to \p *this the least upper bound of \p *this and \p y
+    and returns \c true.
+
+    \exception std::invalid_argument
+    Thrown if \p *this and \p y are dimension-incompatible.
+  */
+  bool upper_bound_assign_if_exact(const Pointset_Powerset& y);
+
   //! Intersects \p *this with constraint \p c.
   /*!
     \exception std::invalid_argument
